@@ -271,6 +271,15 @@ impl Property for C03 {
             out.class_if(seen_error, "checked-row-after-error-item");
             // the call made for this row is the one logged during this next() (exactly one,
             // C02; if the crate does not keep to that, attribution cannot be checked here)
+            if real.log_len_before[k + 1] == real.log_len_before[k] {
+                // no call at all was made for this row, yet it reports outputs: whatever they are, they are not "the
+                // value the driver returned in the call made for that row" (a reading kept from an earlier row)
+                out.fail(
+                    "c03:reported-outputs-without-call",
+                    format!("row {k} reports outputs {:?} but no driver call was made for it", row.outputs.iter().map(|o| format!("{}={}", o.name, o.output)).collect::<Vec<_>>()),
+                );
+                return out;
+            }
             if real.log_len_before[k + 1] != real.log_len_before[k] + 1 {
                 out.discard("call-protocol-broken");
                 return out;
